@@ -44,7 +44,7 @@ def facts : Facts :=
     assignSrcIdx := .i,
     assignDstIdx := .i,
     returnDstIdx := (.add .base .i),
-    returnBaseIsChildPos := true,
+    returnBase := .zeroOrOwn,
     defaultDstIdx := (.add .base .i),
     defineXCell := .always,
     branchDstIdx := .base,
@@ -66,7 +66,7 @@ def facts : Facts :=
 
 /-- fingerprints (extract/common FuncHash) of the functions Model/Boundary.lean was transcribed from -/
 def sourceHashes : List (String × String) :=
-  [("callBin", "b0eb89b1723622dd"),
+  [("callBin", "490f082e0fc1bf72"),
    ("genFunctionWrapper", "4feabaa50796f8ae"),
    ("getFunc", "b1cec79847c23ec5"),
    ("call", "4a0aae56534bcf37"),
@@ -166,6 +166,10 @@ def sourceHashes : List (String × String) :=
       and copies it to the destination after runCfg — what innerCall always did (fresh frame, results read from its first cells);
       nothing else changed in a fingerprinted function (7c18bb6 doCompositeBinStruct, 0a3a691 _return, cfg.go / ast.go repairs
       of F07-5/6/7/18 are outside the transcribed functions);
+    * round-6 re-sync at HEAD 7171cc6 (callBin reviewed against b0eb89b1723622dd, `git diff 61b9210..HEAD -- interp/run.go`): 28d3d87
+      (F04-23) the aReturn arm computes `b := 0; if len(n.anc.child) > 1 { b = n.findex }` instead of `b := childPos(n)` (fact
+      `returnBase`): a call that is one of several operands of a return statement writes its own cell and the return statement
+      assigns it; the other hunks of run.go (assignFromCall / assign, 8f0dcdc, 7f288e3) are outside the fingerprinted functions;
     * db2d0c1 (reviewed before, C02 F02-5): `call` skips a zero-valued argument only when its type differs from the
       parameter's; arguments of the parameter's type are always copied (what the model assumes for every argument);
     * 215471a / 2e388d6: runCfg's deferred loop calls runDeferred (own recover) with the frame lock released. -/
